@@ -172,3 +172,25 @@ def compare_inputs_aligned(run, reply):
                 diffs.append(f"device {key[0]} @t={key[1]} was given {a}, model {b}")
                 break
     return diffs
+
+
+def master_loop_request(run, fixed=True):
+    """observable events of the master's run loop, for the flag-protocol model (`mloop` acceptor of the driver):
+    every add_wakeup (component, resulting entry), every tick start after the initial tick (roots, time), every tick end"""
+    import monitors
+    tid = monitors.master_tid(run)
+    evs, first = [], True
+    for e in run["trace"].events:
+        if e["k"] == "m-add" and e.get("entry") is not None:
+            evs.append({"e": "add", "c": e["comp"], "t": e["entry"]})
+        elif e["k"] == "t-call" and e.get("tid") == tid:
+            if first:
+                first = "in"
+            else:
+                evs.append({"e": "tick", "cs": sorted(e["roots"]), "w": e["time"]})
+        elif e["k"] == "t-done" and e.get("tid") == tid:
+            if first == "in":
+                first = False
+            else:
+                evs.append({"e": "end"})
+    return {"op": "mloop", "fixed": fixed, "events": evs}
